@@ -10,6 +10,8 @@ var props = map[string]PropSpec{
 			{Name: "solver.VP_C01_lit_arith", Kind: "L", Bounds: "every int32 with 0 < |i| < 2^30 (32-bit bit-vectors, no other bound)", Require: []string{"lit_arith"}},
 			{Name: "solver.VP_C01_cnf_slice", Kind: "E", Params: map[string]int{"n": 2, "m": 3, "k": 2, "cert": 1, "smalldb": 1}, Bounds: "n<=2 variables, m<=3 clauses, k<=2 literals each, literals symbolic in [-n,n]\\{0}; Certified on/off; learnt-clause limit default/1", Require: []string{"sat", "unsat", "parse-unsat"}},
 			{Name: "solver.VP_C01_cnf_slice", Kind: "E", Params: map[string]int{"n": 2, "m": 2, "k": 3}, Bounds: "n<=2, m<=2 clauses, k<=3 literals each (duplicate literals and tautologies inside ternary clauses)", Require: []string{"sat", "unsat", "parse-unsat"}},
+			{Name: "solver.VP_C01_cnf_dimacs", Kind: "E", Params: map[string]int{"n": 2, "m": 1, "k": 2}, Bounds: "DIMACS stream with symbolic sign/digit/separator bytes, <=1 clause of <=2 literals, 0..1 unused declared variables, comments, CRLF, missing final newline: ParseCNF -> New -> Solve", Require: []string{"sat", "unsat"}},
+			{Name: "solver.VP_C01_cnf_dimacs", Kind: "E", Params: map[string]int{"n": 2, "m": 2, "k": 2, "layout": 0}, Bounds: "DIMACS stream, <=2 clauses of <=2 literals, plain layout", Require: []string{"sat", "unsat"}},
 		},
 		Thorough: []HarnessRun{
 			{Name: "solver.VP_C01_lit_arith", Kind: "L", Bounds: "every int32 with 0 < |i| < 2^30", Require: []string{"lit_arith"}},
@@ -48,6 +50,7 @@ var props = map[string]PropSpec{
 			{Name: "solver.VP_C03_optim_cnf", Kind: "E", Params: map[string]int{"n": 2, "m": 2, "k": 2, "kc": 2, "W": 2}, Bounds: "n=2 declared variables, <=2 clauses of <=2 symbolic literals; cost function over <=2 distinct variables with symbolic polarity and weights in [0,2], or nil weights, or no cost function; Optimal and Minimize on separately built problems", Require: []string{"sat", "unsat"}},
 			{Name: "solver.VP_C03_optim_cnf", Kind: "E", Params: map[string]int{"n": 3, "m": 2, "k": 2, "kc": 3, "W": 1, "steer": 1, "Wlo": 1, "fullcost": 1, "unitfirst": 1}, Bounds: "n=3, a unit clause and one clause of <=2 literals, cost over all 3 variables with weights 1, every initial phase assignment of the decision heuristic (symbolic phases)", Require: []string{"sat"}},
 			{Name: "solver.VP_C03_optim_pb", Kind: "E", Params: map[string]int{"n": 2, "k": 2, "kc": 2, "W": 2, "PW": 2}, Bounds: "n=2; one PB constraint sum w_i l_i >= d on <=2 distinct variables, w in [1,2], d in [0,5]; cost over <=2 variables, weights [0,2]", Require: []string{"sat", "unsat"}},
+			{Name: "solver.VP_C03_optim_opb", Kind: "E", Params: map[string]int{"n": 3, "CW": 2}, Bounds: "OPB text: min: line over 3 variables (symbolic polarity, weights in [0,2]) and one cardinality constraint; Optimal and Minimize", Require: []string{"opb-optim"}},
 		},
 		Thorough: []HarnessRun{
 			{Name: "solver.VP_C03_optim_cnf", Kind: "E", Params: map[string]int{"n": 3, "m": 2, "k": 2, "kc": 3, "W": 2}, Bounds: "n=3, <=2 clauses x <=2 literals, cost over <=3 variables, weights [0,2]", Require: []string{"sat", "unsat"}},
@@ -112,15 +115,14 @@ var props = map[string]PropSpec{
 	"C09": {
 		ID: "C09",
 		Quick: []HarnessRun{
-			{Name: "solver.VP_C09_append_hist", Kind: "E", Params: map[string]int{"n": 2, "m": 1, "k": 2, "steps": 1, "ka": 2, "W": 2}, Bounds: "base: <=1 clause of <=2 literals over 2 declared variables; one operation from {Solve, AppendClause(clause), AppendClause(cardinality), AppendClause(PB)} on <=2 distinct variables out of 3 (one unseen), weights in [1,2], then Solve", Require: []string{"sat", "unsat", "add-clause", "add-card", "add-pb"}},
+			{Name: "solver.VP_C09_append_hist", Kind: "E", Params: map[string]int{"n": 2, "m": 1, "k": 2, "steps": 1, "ka": 2, "W": 2, "distinct": 0}, Bounds: "base: <=1 clause of <=2 literals over 2 declared variables; one operation from {Solve, AppendClause(clause), AppendClause(cardinality), AppendClause(PB)} on <=2 literals over 3 variables (one unseen; repeated and complementary literals included), weights in [1,2], then Solve", Require: []string{"sat", "unsat", "add-clause", "add-card", "add-pb"}},
 			{Name: "solver.VP_C09_append_hist", Kind: "E", Params: map[string]int{"n": 2, "m": 1, "k": 1, "steps": 2, "ka": 1, "W": 1}, Bounds: "base: <=1 unit clause; two operations with unit constraints (already satisfied, contradictory, new variable), Solve in between or not, then Solve", Require: []string{"sat", "unsat"}},
 		},
 		Thorough: []HarnessRun{
 			{Name: "solver.VP_C09_append_hist", Kind: "E", Params: map[string]int{"n": 2, "m": 2, "k": 2, "steps": 1, "ka": 2, "W": 2}, Bounds: "base <=2 clauses; one operation", Require: []string{"sat", "unsat", "add-clause", "add-card", "add-pb"}},
 			{Name: "solver.VP_C09_append_hist", Kind: "E", Params: map[string]int{"n": 2, "m": 1, "k": 2, "steps": 2, "ka": 2, "W": 1}, Bounds: "base <=1 clause; two operations on <=2 variables, unit weights", Require: []string{"sat", "unsat"}},
 		},
-		Assumptions: []string{"each variable occurs at most once inside an added constraint (constraints that repeat a literal are outside this check: see DESIGN.md)"},
-		Outside:     "histories longer than two additions; added constraints that repeat a literal; more than 3 variables",
+		Outside:     "histories longer than two additions; added constraints of more than 2 literals; more than 3 variables",
 	},
 	"C10": {
 		ID: "C10",
